@@ -60,6 +60,30 @@ def cancel_release(fn: FuncInfo, resource_names: set[str]):
     return pred
 
 
+def race_attempts_rule(eng: Engine, ck: Check, rule: str):
+    """The two attempt tasks of a peer-connection race are finished or cancelled on EVERY exit of the race, the cancellation of the
+    request itself included (shared by C11: nothing is left behind, and C06: cancelling a transfer's negotiation task cancels the
+    connection attempts it is waiting for)."""
+    race = eng.func(NET, 'Network._create_peer_connection_race')
+    ck.visited(race)
+    tasks = [(n, n.targets[0].id) for n in walk_local(race.node) if isinstance(n, ast.Assign) and isinstance(n.value, ast.Call)
+             and call_name(n.value) == 'create_task' and isinstance(n.targets[0], ast.Name)]
+    ck.floor(rule + '.race_tasks', len(tasks), 2)
+    tnames = {nm for _, nm in tasks}
+    tracked = set(tnames) | pending_names(race)
+    for k, v in single_assignments(race).items():
+        if isinstance(v, (ast.Tuple, ast.List, ast.Set)) and all(isinstance(e, ast.Name) and e.id in tnames for e in v.elts):
+            tracked.add(k)
+    rel = cancel_release(race, tracked)
+    for st, nm in tasks:
+        leaks = eng.leak_paths(race, st, rel, exits=('exit_raise', 'exit_cancel', 'exit_return'))
+        # on the final raise both tasks are done (loop ran until pending is empty): `while pending` false edge counts as release
+        ck.ob(rule, race, st, f'attempt task `{nm}` is finished or cancelled on every exit of the race (winner returned, '
+              'both failed, or the request itself cancelled)', not leaks,
+              '; '.join(f'{k} reachable with the task possibly running via lines {p}' for k, p in leaks), construct=f'race task {nm}')
+    return race, tasks, tnames, tracked, rel
+
+
 def run(eng: Engine, ck: Check):
     repo = eng.repo
     exc = eng.exc_model()
@@ -103,23 +127,7 @@ def run(eng: Engine, ck: Check):
     ck.ob('R-C11-WAITERS', rcf, rcf.node, '_remove_connection_future drops the ticket entry', bool(pops or dels), '', construct='remover drops entry')
 
     # ---- R-C11-LOSER
-    race = eng.func(NET, 'Network._create_peer_connection_race')
-    ck.visited(race)
-    tasks = [(n, n.targets[0].id) for n in walk_local(race.node) if isinstance(n, ast.Assign) and isinstance(n.value, ast.Call)
-             and call_name(n.value) == 'create_task' and isinstance(n.targets[0], ast.Name)]
-    ck.floor('R-C11-LOSER', len(tasks), 2)
-    tnames = {nm for _, nm in tasks}
-    tracked = set(tnames) | pending_names(race)
-    for k, v in single_assignments(race).items():
-        if isinstance(v, (ast.Tuple, ast.List, ast.Set)) and all(isinstance(e, ast.Name) and e.id in tnames for e in v.elts):
-            tracked.add(k)
-    rel = cancel_release(race, tracked)
-    for st, nm in tasks:
-        leaks = eng.leak_paths(race, st, rel, exits=('exit_raise', 'exit_cancel', 'exit_return'))
-        # on the final raise both tasks are done (loop ran until pending is empty): `while pending` false edge counts as release
-        ck.ob('R-C11-LOSER', race, st, f'attempt task `{nm}` is finished or cancelled on every exit of the race (winner returned, '
-              'both failed, or the request itself cancelled)', not leaks,
-              '; '.join(f'{k} reachable with the task possibly running via lines {p}' for k, p in leaks), construct=f'race task {nm}')
+    race, tasks, tnames, tracked, rel = race_attempts_rule(eng, ck, 'R-C11-LOSER')
     # cancelled losers are awaited
     canc_nodes = [n for n in eng.cfg(race).nodes if rel(n) and n.kind in ('stmt', 'loop')]
     gath = [x for x in calls_in(race.node) if call_name(x) == 'gather' and isinstance(parent(x), ast.Await)]
@@ -319,3 +327,7 @@ def run(eng: Engine, ck: Check):
         any(v == ('obf', True) and ('port', True) not in cnd for cnd, v in rest)
     ck.ob('R-C11-SELECT', sp, sp.node, 'select_port: both available -> preferred kind; only one available -> that one, with the matching obfuscation flag',
           ok1 and ok2, f'extracted rows: {[(sorted(c), v) for c, v in rows]}', construct='select_port table')
+    from . import defs as _d11
+    _d11.string_decoding_tolerant(eng, ck, 'R-C11-CONNECTBACK', 'a ConnectToPeer request naming such a user must still reach the handler that answers it')
+    from . import defs as _d_act
+    _d_act.active_connection_definition(eng, ck, 'R-C11-INIT', 'create_peer_connection re-uses a connection picked by this test')
